@@ -243,7 +243,7 @@ pub fn run(ctx: &mut Ctx) {
     let dnames: [&str; 9] = ["", "A", "a", "AB", "BA", "A B", "\u{e9}", "a\u{e9}", "ABA"];
     let queries = all_strings(&["A", "a", "B", "\u{e9}", " "], 3);
     let key_ids: Vec<u32> = vec![0, 1, 2, 76, 77, 78, 255, 256, 65_535, 65_536, u32::MAX - 1, u32::MAX];
-    ctx.space("records/ids-symbols-names", "gene sets: all 16 subsets of ids {0,1,77,u32::MAX} x 5 symbol rotations (duplicate symbols included); OMIM/ORPHA sets: all subsets of <= 3 of 9 names plus the full set; every id key, every symbol, all 156 query strings over {A,a,B,é,space} up to length 3");
+    ctx.space("records/ids-symbols-names", "gene sets: all 16 subsets of ids {0,1,77,u32::MAX} x 5 symbol rotations (duplicate symbols included); OMIM/ORPHA sets: all subsets of <= 3 of 9 names plus the full set, records with and without terms; per case two Builder-built ontologies with the same record ids but the next symbols / names, looked up in the order first, second, first, then the first one decoded from binary v3; every id key, every symbol, all 156 query strings over {A,a,B,é,space} up to length 3");
     // disease name subsets
     let mut name_sets: Vec<Vec<usize>> = vec![vec![]];
     for a in 0..9 {
@@ -262,96 +262,135 @@ pub fn run(ctx: &mut Ctx) {
         }
         ctx.state();
         let gmask = (si % 16) as u32;
-        let rot = si % 5;
-        let mut f = Facts::default();
-        f.terms = vec![Facts::term(1, "All"), Facts::term(118, "Phenotypic abnormality")];
-        f.edges = vec![(118, 1)];
-        let mut genes: BTreeMap<u32, String> = BTreeMap::new();
-        for (i, gid) in rec_ids.iter().enumerate() {
-            if gmask >> i & 1 == 1 {
-                // symbols rotate; every third set gives two genes the same symbol
-                let sym = if si % 3 == 0 && i >= 2 { symbols[rot] } else { symbols[(i + rot) % 5] };
-                genes.insert(*gid, sym.to_string());
-                f.anns.push(Facts::ann(Kind::Gene, *gid, sym, if i % 2 == 0 { Some(118) } else { None }));
+        // two ontologies per case with the same record ids and counts: in the second one every symbol and
+        // name is the next one of the rotation. Looked up in the order first, second, first again (a lookup
+        // must not depend on what was looked up before, in this or in another ontology)
+        struct Variant {
+            f: Facts,
+            genes: BTreeMap<u32, String>,
+            omim: BTreeMap<u32, String>,
+            orpha: BTreeMap<u32, String>,
+        }
+        let mut variants: Vec<Variant> = vec![];
+        for shift in 0..2usize {
+            let rot = (si + shift) % 5;
+            let mut f = Facts::default();
+            f.terms = vec![Facts::term(1, "All"), Facts::term(118, "Phenotypic abnormality")];
+            f.edges = vec![(118, 1)];
+            let mut genes: BTreeMap<u32, String> = BTreeMap::new();
+            for (i, gid) in rec_ids.iter().enumerate() {
+                if gmask >> i & 1 == 1 {
+                    // symbols rotate; every third set gives two genes the same symbol
+                    let sym = if si % 3 == 0 && i >= 2 { symbols[rot] } else { symbols[(i + rot) % 5] };
+                    genes.insert(*gid, sym.to_string());
+                    f.anns.push(Facts::ann(Kind::Gene, *gid, sym, if i % 2 == 0 { Some(118) } else { None }));
+                }
+            }
+            let mut omim: BTreeMap<u32, String> = BTreeMap::new();
+            let mut orpha: BTreeMap<u32, String> = BTreeMap::new();
+            for (j, ni) in ns.iter().enumerate() {
+                let id = if j + 1 == ns.len() && ns.len() > 1 { u32::MAX } else { j as u32 * 77 };
+                omim.insert(id, dnames[(*ni + 2 * shift) % 9].to_string());
+                f.anns.push(Facts::ann(Kind::Omim, id, dnames[(*ni + 2 * shift) % 9], if (j + si) % 2 == 0 { Some(1) } else { None }));
+                orpha.insert(id, dnames[(*ni + 1 + 2 * shift) % 9].to_string());
+                f.anns.push(Facts::ann(Kind::Orpha, id, dnames[(*ni + 1 + 2 * shift) % 9], None));
+            }
+            variants.push(Variant { f, genes, omim, orpha });
+        }
+        let per = (queries.len() * 2 + 3 * key_ids.len() + symbols.len()) as u64;
+        ctx.transitions(2 * variants[0].f.n_steps() + variants[1].f.n_steps() + 4 * per);
+        ctx.execs(4 * per);
+        ctx.validateds(4 * per);
+        let mut onts = vec![];
+        for v in &variants {
+            match drive::build(&v.f, Mode::Minimal) {
+                Ok(o) => onts.push(o),
+                Err(_) => ctx.violation("Builder", "construction fails on valid facts", json!({"facts": v.f.to_json()})),
             }
         }
-        let mut omim: BTreeMap<u32, String> = BTreeMap::new();
-        let mut orpha: BTreeMap<u32, String> = BTreeMap::new();
-        for (j, ni) in ns.iter().enumerate() {
-            let id = if j + 1 == ns.len() && ns.len() > 1 { u32::MAX } else { j as u32 * 77 };
-            omim.insert(id, dnames[*ni].to_string());
-            f.anns.push(Facts::ann(Kind::Omim, id, dnames[*ni], Some(1)));
-            orpha.insert(id, dnames[(*ni + 1) % 9].to_string());
-            f.anns.push(Facts::ann(Kind::Orpha, id, dnames[(*ni + 1) % 9], None));
-        }
-        ctx.transitions(f.n_steps() + (queries.len() + 3 * key_ids.len() + symbols.len()) as u64);
-        ctx.execs((queries.len() * 2 + 3 * key_ids.len() + symbols.len()) as u64);
-        ctx.validateds((queries.len() * 2 + 3 * key_ids.len() + symbols.len()) as u64);
-        let Ok(ont) = drive::build(&f, Mode::Minimal) else {
-            ctx.violation("Builder", "construction fails on valid facts", json!({"facts": f.to_json()}));
+        if onts.len() != 2 {
             continue;
-        };
+        }
+        // the first ontology once more, decoded from the binary format (records without terms included)
+        match drive::from_bytes(&crate::encode::encode(&variants[0].f, &crate::encode::EncOpts::v(3))) {
+            Ok(Ok(o)) => onts.push(o),
+            other => {
+                ctx.violation("Ontology::from_bytes", "cannot decode a file laid out as documented", json!({"facts": variants[0].f.to_json(), "observed": format!("{:?}", other.map(|r| r.map(|_| ())))}));
+                continue;
+            }
+        }
         let mut strict_subset = false;
-        let res = guard(|| -> V {
-            for k in &key_ids {
-                let g = ont.gene(&(*k).into()).map(|g| (g.id().as_u32(), g.name().to_string()));
-                if g != genes.get(k).map(|n| (*k, n.clone())) {
-                    return Some(("Ontology::gene".into(), "does not return the record with that id or nothing".into(), format!("gene({k}) = {g:?}")));
-                }
-                let o = ont.omim_disease(&(*k).into()).map(|d| (d.id().as_u32(), d.name().to_string()));
-                if o != omim.get(k).map(|n| (*k, n.clone())) {
-                    return Some(("Ontology::omim_disease".into(), "does not return the record with that id or nothing".into(), format!("omim_disease({k}) = {o:?}")));
-                }
-                let r = ont.orpha_disease(&(*k).into()).map(|d| (d.id().as_u32(), d.name().to_string()));
-                if r != orpha.get(k).map(|n| (*k, n.clone())) {
-                    return Some(("Ontology::orpha_disease".into(), "does not return the record with that id or nothing".into(), format!("orpha_disease({k}) = {r:?}")));
-                }
-            }
-            for s in symbols.iter().copied().chain(["B", "ab", "A ", " A", "AA"]) {
-                let got = ont.gene_by_name(s).map(|g| (g.id().as_u32(), g.name().to_string()));
-                let exists = genes.values().any(|n| n == s);
-                match got {
-                    Some((id, name)) => {
-                        if name != s || genes.get(&id) != Some(&name) {
-                            return Some(("Ontology::gene_by_name".into(), "returns a gene whose symbol is not exactly the query".into(), format!("gene_by_name({s:?}) = ({id}, {name:?})")));
-                        }
+        for (step, which) in [0usize, 1, 0, 2].into_iter().enumerate() {
+            let vi = if which == 2 { 0 } else { which };
+            let (ont, genes, omim, orpha) = (&onts[which], &variants[vi].genes, &variants[vi].omim, &variants[vi].orpha);
+            let res = guard(|| -> V {
+                for k in &key_ids {
+                    let g = ont.gene(&(*k).into()).map(|g| (g.id().as_u32(), g.name().to_string()));
+                    if g != genes.get(k).map(|n| (*k, n.clone())) {
+                        return Some(("Ontology::gene".into(), "does not return the record with that id or nothing".into(), format!("gene({k}) = {g:?}")));
                     }
-                    None => {
-                        if exists {
-                            return Some(("Ontology::gene_by_name".into(), "returns nothing although a gene with exactly that symbol exists".into(), format!("gene_by_name({s:?})")));
-                        }
+                    let o = ont.omim_disease(&(*k).into()).map(|d| (d.id().as_u32(), d.name().to_string()));
+                    if o != omim.get(k).map(|n| (*k, n.clone())) {
+                        return Some(("Ontology::omim_disease".into(), "does not return the record with that id or nothing".into(), format!("omim_disease({k}) = {o:?}")));
+                    }
+                    let r = ont.orpha_disease(&(*k).into()).map(|d| (d.id().as_u32(), d.name().to_string()));
+                    if r != orpha.get(k).map(|n| (*k, n.clone())) {
+                        return Some(("Ontology::orpha_disease".into(), "does not return the record with that id or nothing".into(), format!("orpha_disease({k}) = {r:?}")));
                     }
                 }
+                for s in symbols.iter().copied().chain(["B", "ab", "A ", " A", "AA"]) {
+                    let got = ont.gene_by_name(s).map(|g| (g.id().as_u32(), g.name().to_string()));
+                    let exists = genes.values().any(|n| n == s);
+                    match got {
+                        Some((id, name)) => {
+                            if name != s || genes.get(&id) != Some(&name) {
+                                return Some(("Ontology::gene_by_name".into(), "returns a gene whose symbol is not exactly the query".into(), format!("gene_by_name({s:?}) = ({id}, {name:?})")));
+                            }
+                        }
+                        None => {
+                            if exists {
+                                return Some(("Ontology::gene_by_name".into(), "returns nothing although a gene with exactly that symbol exists".into(), format!("gene_by_name({s:?})")));
+                            }
+                        }
+                    }
+                }
+                for q in &queries {
+                    let want: BTreeSet<u32> = omim.iter().filter(|(_, n)| n.contains(q.as_str())).map(|(i, _)| *i).collect();
+                    let got_list: Vec<u32> = ont.omim_diseases_by_name(q).map(|d| d.id().as_u32()).collect();
+                    let got: BTreeSet<u32> = got_list.iter().copied().collect();
+                    if got != want || got_list.len() != want.len() {
+                        return Some(("Ontology::omim_diseases_by_name".into(), "does not return exactly the diseases whose name contains the query".into(), format!("query {q:?}: observed {got_list:?} expected {want:?}")));
+                    }
+                    if !want.is_empty() && want.len() < omim.len() {
+                        strict_subset = true;
+                    }
+                    let one = ont.omim_disease_by_name(q).map(|d| d.id().as_u32());
+                    match one {
+                        Some(id) if want.contains(&id) => {}
+                        None if want.is_empty() => {}
+                        other => return Some(("Ontology::omim_disease_by_name".into(), "does not return a disease whose name contains the query (or None iff there is none)".into(), format!("query {q:?}: observed {other:?} expected one of {want:?}"))),
+                    }
+                }
+                None
+            });
+            let order = ["first ontology", "second ontology (same record ids, next symbols / names) after the first", "first ontology again after the second", "first ontology decoded from binary v3"][step];
+            match res {
+                Ok(None) => {}
+                Ok(Some((site, sig, det))) => {
+                    ctx.violation(&site, &sig, json!({"facts": variants[vi].f.to_json(), "difference": det, "looked_up_as": order, "other_ontology": variants[1 - vi].f.to_json()}));
+                    break;
+                }
+                Err(p) => {
+                    ctx.violation("Ontology lookups", "panics", json!({"facts": variants[vi].f.to_json(), "observed": p, "looked_up_as": order}));
+                    break;
+                }
             }
-            for q in &queries {
-                let want: BTreeSet<u32> = omim.iter().filter(|(_, n)| n.contains(q.as_str())).map(|(i, _)| *i).collect();
-                let got_list: Vec<u32> = ont.omim_diseases_by_name(q).map(|d| d.id().as_u32()).collect();
-                let got: BTreeSet<u32> = got_list.iter().copied().collect();
-                if got != want || got_list.len() != want.len() {
-                    return Some(("Ontology::omim_diseases_by_name".into(), "does not return exactly the diseases whose name contains the query".into(), format!("query {q:?}: observed {got_list:?} expected {want:?}")));
-                }
-                if !want.is_empty() && want.len() < omim.len() {
-                    strict_subset = true;
-                }
-                let one = ont.omim_disease_by_name(q).map(|d| d.id().as_u32());
-                match one {
-                    Some(id) if want.contains(&id) => {}
-                    None if want.is_empty() => {}
-                    other => return Some(("Ontology::omim_disease_by_name".into(), "does not return a disease whose name contains the query (or None iff there is none)".into(), format!("query {q:?}: observed {other:?} expected one of {want:?}"))),
-                }
-            }
-            None
-        });
-        match res {
-            Ok(None) => {}
-            Ok(Some((site, sig, det))) => ctx.violation(&site, &sig, json!({"facts": f.to_json(), "difference": det})),
-            Err(p) => ctx.violation("Ontology lookups", "panics", json!({"facts": f.to_json(), "observed": p})),
         }
         if strict_subset {
             ctx.nontrivial();
         }
         ctx.outcome(si as u64);
-        ctx.sample(|| json!({"genes": genes, "omim": omim, "orpha": orpha, "queries": queries.len()}));
+        ctx.sample(|| json!({"genes": variants[0].genes, "omim": variants[0].omim, "orpha": variants[0].orpha, "second ontology genes": variants[1].genes, "queries": queries.len()}));
     }
     // ---- dense and sparse id sets, full sweep
     ctx.space("terms/dense-and-sparse", "dense block 1..=2000; sparse sets id_k = (k*7919+1) mod 10^7 (5000 ids) and every 37th id up to 10^7 (270271 ids); full sweep of 0..10^7+10^4 plus borders, iteration and len");
